@@ -63,7 +63,8 @@ func (s *Staking) replaySlashing(ctx *context) ([]Evidence, []Evidence, []*commo
 		return nil, nil, nil, fmt.Errorf("empty evidences of number: %d", header.Number)
 	}
 
-	parentHeight := new(big.Int).Set(ctx.chain.CurrentHeader().Number)
+	// the block's own parent, not the canonical head: on a side chain they differ
+	parentHeight := new(big.Int).Sub(header.Number, big.NewInt(1))
 
 	var verifiedEvidences []Evidence
 	for _, evidence := range evidences {
